@@ -19,7 +19,7 @@ from vlib.core import Result
 PID = "C13"
 RULE = ("cases: 1-3 pipelined well-formed requests (Requestant) or responses (Respondent): content-length / chunked with "
         "extensions, trailers, hex case, leading zeros / close-delimited / no-body statuses / 100-continue preface, CRLF or "
-        "bare-LF head lines, bodies containing CR, LF, CRLF and look-alike framing; x a fragmentation recipe x 0-2 service "
+        "bare-LF head lines, bodies containing CR, LF, CRLF and look-alike framing; x a fragmentation recipe (plus every single cut within the first 48 bytes) x 0-2 service "
         "passes without new bytes after each read. "
         "non-trivial = body contains CR or LF or the message has chunked trailers/extensions, and the generated "
         "partition has >= 2 interior cuts; distinct = canonical hash of (specs, recipe)")
@@ -68,6 +68,15 @@ def run_case(case):
     if d is None:
         d = diff(whole, part)
         which = "one read vs partition %r" % (case["cuts"]["mode"],)
+    if d is None:
+        # every single cut within the first bytes of the data (start line / interim response / first header lines), the
+        # rest in one read: the shapes in which one parser object is re-used across lines that arrive together
+        for at in range(1, min(48, len(data) - 1) + 1):
+            one = run_one(kind, data, [data[:at], data[at:]], close, method)
+            d = diff(whole, one)
+            if d is not None:
+                which = "one read vs a single cut after byte %d" % at
+                break
     if d is not None:
         sig = "C13/fragmentation-dependent"
         if lf_head and b"\r\n" in data:
